@@ -250,6 +250,9 @@ def invoke_call(X, ins):
     c = V.contracts['funcs'].get(key)
     X.nonnil(X.w.Iface.tag(recv), ins['pos'], 'method call on nil interface')
     callsite_assertions(X, ins, key, argv, [ins['recv']] + list(ins['args']))
+    if X.top and X.contract is not None and 'countcalls' in X.contract['flags']:
+        gk_ = ('ghost', 'ncalls_' + ins['invoke'], I)
+        X.heap.set(gk_, X.heap.get(gk_) + 1)
     if c is not None:
         return contract_call(X, ins, key, c, argv, iface_sig=ins['sig'])
     if ext is not None:
